@@ -34,13 +34,18 @@ class Clock(object):
     def apply(self):
         for i, o in enumerate(self.objs):
             o._state = self.at(i, self.tick)
+    # one tick = 0.125 virtual seconds (exact in binary): the polling sleep of 0.1 s takes one tick, a longer
+    # sleep takes as many ticks as it lasts; the entities move along their trajectories tick by tick
+    TICK = 0.125
     def sleep(self, dt):
-        self.tick += 1
-        if self.tick > self.limit:
-            raise Spin()
+        n = max(1, int(-(-float(dt) // self.TICK)))
+        for _ in range(n):
+            self.tick += 1
+            if self.tick > self.limit:
+                raise Spin()
         self.apply()
     def time(self):
-        return float(self.tick)
+        return self.tick * self.TICK
 
 
 def with_clock(clock, fn):
@@ -65,25 +70,25 @@ def run_case(rp, op):
         tm = stubs.make_tmgr(rp)
         t  = stubs.make_task(rp, tm, 'task.000000')
         ck = Clock([t], [op['traj']], limit)
-        return with_clock(ck, lambda: t.wait(state=req, timeout=to or None))
+        return with_clock(ck, lambda: t.wait(state=req, timeout=(to * Clock.TICK) if to else None))
     if kind == 'pilot_wait':
         pm = c14.make_pmgr(rp)
         p  = c14.make_pilot(rp, pm, 'pilot.0000', 'NEW')
         ck = Clock([p], [op['traj']], limit)
-        return with_clock(ck, lambda: p.wait(state=req, timeout=to or None))
+        return with_clock(ck, lambda: p.wait(state=req, timeout=(to * Clock.TICK) if to else None))
     if kind == 'wait_tasks':
         tm = stubs.make_tmgr(rp)
         ts = [stubs.make_task(rp, tm, 'task.%06d' % i) for i in range(len(op['trajs']))]
         ck = Clock(ts, op['trajs'], limit)
         uids = [t.uid for t in ts]
-        return with_clock(ck, lambda: tm.wait_tasks(uids=uids, state=req, timeout=to or None))
+        return with_clock(ck, lambda: tm.wait_tasks(uids=uids, state=req, timeout=(to * Clock.TICK) if to else None))
     if kind == 'wait_pilots':
         pm = c14.make_pmgr(rp)
         pm._rep = rpload.NullLog()
         ps = [c14.make_pilot(rp, pm, 'pilot.%04d' % i, 'NEW') for i in range(len(op['trajs']))]
         ck = Clock(ps, op['trajs'], limit)
         uids = [p.uid for p in ps]
-        return with_clock(ck, lambda: pm.wait_pilots(uids=uids, state=req, timeout=to or None))
+        return with_clock(ck, lambda: pm.wait_pilots(uids=uids, state=req, timeout=(to * Clock.TICK) if to else None))
 
 
 def monitor(rp, op, res):
